@@ -9,7 +9,7 @@ m = {
  "setup_cmd": "./vk setup",
  "hooks": {
   "guard": "verif",
-  "enable": "every hook is injected with `go test -c -tags verif -overlay <generated>`: import-rewritten copies of sdns sources (sync->vsync, sync/atomic->vatomic, time->vtime, os->vos), virtual packages under internal/verifshim/, in-package zz_verif_*_test.go harnesses, and textual overlay patches of the build copy (vk unit key `patch`, used by C10/txsched: `sched.IOPoint` scheduling points immediately before the UDP engine's send calls in server/udp_batch_linux.go and server/udp_engine.go; and by C13/probe: one `sched.Block` statement in front of the follower's bare select in middleware/cache/cache.go; an anchor that does not match exactly once fails the build); nothing is committed to /repo",
+  "enable": "every hook is injected with `go test -c -tags verif -overlay <generated>`: import-rewritten copies of sdns sources (sync->vsync, sync/atomic->vatomic, time->vtime, os->vos), virtual packages under internal/verifshim/, in-package zz_verif_*_test.go harnesses, and textual overlay patches of the build copy (vk unit key `patch`, used by C10/txsched: `sched.IOPoint` scheduling points immediately before the UDP engine's send calls in server/udp_batch_linux.go and server/udp_engine.go; by C13/probe: one `sched.Block` statement in front of the follower's bare select in middleware/cache/cache.go; and by C12/metering: one-line operation counters (`vkcount.Bump`) at the entry of the DS-digest, signature-verification and NSEC3-hash primitives of middleware/resolver/dnssec; an anchor that does not match exactly once fails the build); nothing is committed to /repo",
   "baseline_off_cmd": "cd /repo && go test -mod=mod -json -vet=off -count=1 -timeout 25m ./...",
   "source_commits": [],
   "add_only": True,
